@@ -27,6 +27,11 @@ def step (_ : Unit) (ws : List String) : Unit × String :=
     match a.toNat?, b.toNat? with
     | some x, some y => ((), match checkedSub x y with | some r => s!"some {r}" | none => "none")
     | _, _ => ((), "bad-op")
+  | "clisum" :: split :: rest =>
+    -- `clisum <k> a1 a2 …`: the first k events are consumed before the completion signal, the rest are drained
+    match split.toNat?, natList rest with
+    | some k, some xs => ((), s!"total {cliSummary (xs.take k) (xs.drop k)}")
+    | _, _ => ((), "bad-op")
   | _ => ((), "bad-op")
 
 
